@@ -78,7 +78,8 @@ def _exec_life(sc):
     out = {"sc": sc, "env": env, "events": evs, "error": None}
     tmp = tempfile.mkdtemp(prefix="ocf_", dir=os.path.join(BUILD, "traces"))
     try:
-        bb = M.make_base(sig, {i + 1: c for i, c in enumerate(sc["base"])}) if sc["base"] else None
+        keys = sc.get("keys") or list(range(1, len(sc["base"]) + 1))
+        bb = M.make_base(sig, {k: c for k, c in zip(keys, sc["base"])}) if sc["base"] else None
         objs = []
         # ---- construct
         try:
@@ -292,6 +293,7 @@ def gen_scenarios(rng, kinds, n, persistence):
         sig = infer.SIG[:atoms]
         nw = 1 << atoms
         sc = {"kind": kind, "sig": sig, "base": [], "facts": [], "extended": None, "seed": rng.randrange(1 << 30)}
+        sparse = kind == "z" and rng.random() < 0.4  # System Z objects also get bases with sparse / shifted integer keys
         if kind == "z":
             ext = rng.choice([None, None, False, True])
             nf = rng.choice([0, 0, 1, 1, 2])
@@ -304,6 +306,9 @@ def gen_scenarios(rng, kinds, n, persistence):
             if not c:
                 continue
             sc.update(base=[(x["B"], x["A"]) for x in c["base"]], facts=facts, extended=ext)
+            if sparse:
+                n_ = len(sc["base"])
+                sc["keys"] = rng.choice([sorted(rng.sample(range(1, n_ + 4), n_)), list(range(2, n_ + 2)), list(range(0, n_))])
         elif kind == "c":
             c = infer.gen_case(rng, atoms, rng.choice([1, 2, 3, 3]), 1, {"strong"})
             if not c:
